@@ -19,7 +19,7 @@ def numel(sh):
 
 def gen_case(seed):
     g = G(SeedSource(seed), Opts(gauss=True, max_names=4))
-    kind = g.pick(["delta", "delta", "tensor_sample", "tensor_sample", "tensor_sample", "gauss_sample", "gauss_sample", "gauss_reparam", "delta_terms", "delta_terms", "delta_terms"])
+    kind = g.pick(["delta", "delta", "tensor_sample", "tensor_sample", "tensor_sample", "gauss_sample", "gauss_sample", "gauss_reparam", "delta_terms", "delta_terms", "delta_terms", "mixture_sample", "mixture_sample"])
     names = sorted(g.sizes)
     if kind == "delta_terms":
         # point masses inside the generated term language: Delta + f in both orders, several Deltas (one point a function of
@@ -61,6 +61,27 @@ def gen_case(seed):
             # a sample input that coincides with a batch input is ignored by funsor
             pass
         return dict(kind=kind, ins=tins, data=data, sampled=sampled, sample_inputs=sample_inputs, seed=g.rint((0, 10000)))
+    if kind == "mixture_sample":
+        # Tensor + Gaussian mixture: integer and real variables sampled in one call or in two calls
+        leaf = gauss_leaf(g, set(g.sizes), rank_mode=g.pick(["full", "over"]), max_dim=3)
+        for _ in range(6):
+            if leaf[1]:
+                break
+            leaf = gauss_leaf(g, set(g.sizes), rank_mode=g.pick(["full", "over"]), max_dim=3)
+        ints = [n for n, s_ in leaf[1]]
+        reals = [n for n, sh in leaf[2]]
+        extra = [n for n in names if n not in ints][:1] if g.chance(0.4) else []
+        wnames = g.subset(ints, 1, len(ints)) + extra if ints else extra
+        if not wnames:
+            wnames = names[:1]
+        wins = tuple((n, g.sizes[n]) for n in wnames)
+        w = ("ten", wins, (), "real", g.expand([0.25, 0.5, 1.0, -0.5, 1.5], g.numel([s_ for _, s_ in wins])), False)
+        allints = sorted(set(ints) | set(wnames))
+        si = g.subset(allints, 1, len(allints))
+        sr = g.subset(reals, 0, len(reals))
+        nsi = g.rint((0, 1))
+        return dict(kind=kind, gauss=leaf, weights=w, sampled_ints=si, sampled_reals=sr, sample_inputs=[("p", g.rint((1, 3)))][:nsi], seed=g.rint((0, 10000)),
+                    two_calls=g.chance(0.4) and bool(sr), reals_first=g.chance(0.5))
     leaf = gauss_leaf(g, set(g.sizes), rank_mode=g.pick(["full", "over"]), max_dim=4)
     reals = [n for n, sh in leaf[2]]
     if kind == "gauss_sample":
@@ -113,6 +134,10 @@ class C14(Prop):
             from vf.lang import show
 
             c["gauss"] = show(c["gauss"])
+        if "weights" in c:
+            from vf.lang import show
+
+            c["weights"] = show(c["weights"])
         if "ast" in c:
             from vf.lang import show
 
@@ -313,6 +338,69 @@ class C14(Prop):
             stt.mark_nontrivial(case_hash(case))
 
     # ------------------------------------------------------------ Gaussian sampling
+    def check_mixture_sample(self, case, stt):
+        from collections import OrderedDict
+
+        from funsor import Bint, Real, Reals, Variable, ops
+        from vf.build import build, eval_at
+        from vf.lang import NotNormalizable, int_points, real_points
+
+        leaf, w = case["gauss"], case["weights"]
+        node = ("bin", "add", w, leaf)
+        si, sr = list(case["sampled_ints"]), list(case["sampled_reals"])
+        sis = [tuple(x) for x in case["sample_inputs"]]
+        f = build(node)
+        inputs0 = typeof(node)[0]
+        sizes = {n: d[0] for n, d in inputs0.items() if d[0] != "real"}
+        si = [n for n in si if n in sizes]
+        if not si:
+            raise Decline("nothing integer to sample")
+        sample_inputs = OrderedDict((n, Bint[s_]) for n, s_ in sis)
+
+        def draw():
+            np.random.seed(case["seed"])
+            if case["two_calls"]:
+                first, second = (sr, si) if case["reals_first"] else (si, sr)
+                y_ = f.sample(frozenset(first), sample_inputs)
+                return y_.sample(frozenset(second), sample_inputs) if second else y_
+            return f.sample(frozenset(si + sr), sample_inputs)
+
+        try:
+            y = draw()
+        except Exception as e:
+            raise Decline("sample-raised:" + innermost_funsor_frame(e))
+        want_inputs = set(inputs0) | {n for n, s_ in sis}
+        if set(y.inputs) != want_inputs or y.output != Real:
+            raise Violation("mixture-sample-type", f"inputs {sorted(y.inputs)} expected {sorted(want_inputs)}: {self.describe(case)}")
+        # an integer variable of a Tensor + Gaussian mixture is drawn from the weights times the Gaussian's normaliser (all
+        # real inputs integrated out), so the mass that is preserved is the one over the sampled variables AND every real
+        # input of the Gaussian (by design: Contraction._sample, "sample greedily")
+        allreals = [n for n, sh in leaf[2]]
+        vs = tuple((n, sizes[n]) for n in si) + tuple((n, ("real", REAL_POOL[n])) for n in allreals)
+        marg = ("red", "logaddexp", node, vs)
+        try:
+            total = y.reduce(ops.logaddexp, frozenset([Variable(n, Bint[sizes[n]]) for n in si] + [Variable(n, Reals[REAL_POOL[n]]) for n in allreals]))
+        except Exception as e:
+            raise Decline("reduce-sample-raised:" + innermost_funsor_frame(e))
+        inputs = typeof(marg)[0]
+        orc = Oracle()
+        for rp in real_points(inputs, 2):
+            for ip in int_points(inputs):
+                pt = dict(ip)
+                pt.update(rp)
+                try:
+                    want = orc.ev(marg, pt)
+                except NotNormalizable:
+                    raise Decline("not-normalizable")
+                for sidx in itertools.product(*[range(s_) for n, s_ in sis]):
+                    p2 = dict(pt)
+                    p2.update(dict(zip([n for n, s_ in sis], sidx)))
+                    got = eval_at(total, p2)
+                    if not close(got, want):
+                        raise Violation("mixture-sample-mass", f"at {p2}: mass of the sample {np.asarray(got).tolist()} vs marginal {np.asarray(want).tolist()}: {self.describe(case)}")
+        stt.count("completed")
+        stt.mark_nontrivial(case_hash(case))
+
     def check_gauss_sample(self, case, stt):
         from collections import OrderedDict
 
